@@ -12,6 +12,7 @@ import (
 type Iter struct {
 	err  error
 	msgC chan xml.TokenReader
+	done chan struct{}
 	cur  xml.TokenReader
 	h    *Handler
 	id   string
@@ -20,9 +21,20 @@ type Iter struct {
 
 // Next advances the iterator
 func (i *Iter) Next() bool {
-	var ok bool
-	i.cur, ok = <-i.msgC
-	return ok
+	// Once the query has ended or the iterator was closed there is nothing more.
+	select {
+	case <-i.done:
+		i.cur = nil
+		return false
+	default:
+	}
+	select {
+	case i.cur = <-i.msgC:
+		return true
+	case <-i.done:
+		i.cur = nil
+		return false
+	}
 }
 
 // Current returns the current message stream read from the iterator.
